@@ -357,12 +357,12 @@ def _native_monitor(which, nn, bb, ns_user=None):
         k1, k2 = jax.random.split(key)
         # keys given as a dict whose insertion order is not alphabetical; the two stores live in disjoint ranges
         g = DataGeneratorParameter({"nu": k1, "D": k2}, nn, bb, {"nu": (0.0, 1.0), "D": (10.0, 11.0)}, "uniform", {})
-        for call in range(3):
+        for call in range(2 * (nn // bb + 2)):
             g2, batch = g.param_batch()
             for kname, (lo_, hi_) in (("nu", (0.0, 1.0)), ("D", (10.0, 11.0))):
                 st_ = np.asarray(g2.param_n_samples[kname]).reshape(-1)
                 bt_ = np.asarray(batch[kname]).reshape(-1)
-                if st_.min() < lo_ or st_.max() > hi_ or bt_.min() < lo_ or bt_.max() > hi_:
+                if np.isnan(bt_).any() or np.isnan(st_).any() or st_.min() < lo_ or st_.max() > hi_ or bt_.min() < lo_ or bt_.max() > hi_:
                     return [f"call {call}: n={nn}, b={bb}: the store / batch of parameter '{kname}' holds values outside its own samples "
                             f"(range [{lo_}, {hi_}]): store {st_.tolist()[:4]}..., batch {bt_.tolist()}"]
                 if not np.allclose(np.sort(st_), np.sort(np.asarray(g.param_n_samples[kname]).reshape(-1))):
